@@ -279,9 +279,6 @@ class Recorder:
                 self.validation.append(dict(prog=prog, **validate_translation(tr, O, hints)))
             A = list(assume) + ctxA + (extra_assume_fn(tr.A, O) if extra_assume_fn else [])
             dec = self.decider(A, hint_spec)
-            va = dec.assumptions_sat()
-            if va != "sat":
-                raise HarnessError(f"{prog}: assumptions not satisfiable ({va})")
             goals = list(goal_fn(tr.A, O))
             # obligations recorded by the interpreter are goals too
             for k, (oname, ot) in enumerate(it.ctx.oblig):
@@ -304,6 +301,8 @@ class Recorder:
                         self.inconclusive.append(f"{prog}/twin:{gname}: unknown")
             self.solver_time += dec.solver_time
             self.smt2.extend(dec.smt2)
+            if dec.vacuous:
+                raise HarnessError(f"{prog}: assumptions used by a proof are unsatisfiable (vacuous): {dec.vacuous[:3]}")
         except NotEncodable as ex:
             self.inconclusive.append(f"{prog}: not encodable: {ex}")
         except HarnessError as ex:
